@@ -181,6 +181,19 @@ def run(rep: Report, tier: str, seed: int) -> None:
                     doc_cases.append(Case(cid, render_annotated(cid, elems, is_tuple, doc or None), ("doc", elems, is_tuple, names), (), f"d:{n}{'t' if is_tuple else ''}:{''.join('N' if x else 'u' for x in names) or '-'}"))
                     cid += 1
     del doc_types
+    # ---- inferred results next to documented results (numpydoc): coverage must not depend on the documentation
+    infdoc_cases: list[Case] = []
+    rv_small = ["1", '"s"', "True", "None", "1.5", '1, "s"']
+    for r1, r2 in itertools.product(rv_small, repeat=2):
+        for ndoc, named in ((1, True), (1, False), (2, True)):
+            stmts = [(("if",), r1), (("top",), r2)]
+            names = [f"r{chr(97 + i)}" if named else None for i in range(ndoc)]
+            doc = numpy_returns(names, ["int", "str"][:ndoc])
+            body = render_inferred(cid, stmts, False)
+            head, rest = body.split("\n", 1)
+            src = head + '\n    """Summary.\n' + doc + '    """\n' + rest
+            infdoc_cases.append(Case(cid, src, ("inf", stmts, False, False), (), f"infdoc:{r1 or 'bare'}+{r2 or 'bare'}:{ndoc}{'N' if named else 'u'}"))
+            cid += 1
     rep.rule = (
         "inferred: one return statement under every statement context (16 contexts, depth<=%s) x 11 typed + 12 untyped return expressions; two return statements at depth<=1 over %d typed letters%s;"
         " functions and methods. annotated: 12 annotation terms alone and as tuple[...] of 1..3; numpydoc result sections with 0..3 entries, each named or unnamed, against 1..3 results."
@@ -233,7 +246,9 @@ def run(rep: Report, tier: str, seed: int) -> None:
                 with_value = [1 for path, rv in own if RV_TYPED[rv] != ((NULL,),)]
                 if not with_value:
                     # neither annotation nor a return statement with a value (bare return / return None only)
-                    if results:
+                    if c.label.startswith("infdoc:"):
+                        pass  # the docstring documents results: the only source of a type is used (C14), results are legitimate
+                    elif results:
                         viol("no-inferable-return", "/".join(sorted({"/".join(p) + ":" + (rv or "bare") for p, rv in stmts})), {"observed": rshow})
                     else:
                         rep.ok("no-inferable-return")
@@ -253,7 +268,9 @@ def run(rep: Report, tier: str, seed: int) -> None:
                 else:
                     rep.ok("covers")
                 # names of inferred results without docstring
-                if [r.name for r in results] == [f"result_{i + 1}" for i in range(len(results))]:
+                if c.label.startswith("infdoc:"):
+                    pass
+                elif [r.name for r in results] == [f"result_{i + 1}" for i in range(len(results))]:
                     rep.ok("names")
                 else:
                     viol("names", "inferred", {"observed": rshow})
@@ -313,9 +330,10 @@ def run(rep: Report, tier: str, seed: int) -> None:
     groups += [(ann_cases[i : i + per_group], Opts()) for i in range(0, len(ann_cases), per_group)]
     groups += [(ann_cases[i : i + per_group], Opts(docstyle="NUMPYDOC")) for i in range(0, len(ann_cases), per_group)]
     groups += [(doc_cases, Opts(docstyle="NUMPYDOC"))]
+    groups += [(infdoc_cases, Opts(docstyle="NUMPYDOC")), (infdoc_cases, Opts(docstyle="GOOGLE"))]
     run_packed(groups, build, on_group, stats)
     rep.extra.update(stats)
-    rep.extra.update({"inferred_cases": n_inf, "annotated_cases": len(ann_cases), "doc_cases": len(doc_cases)})
+    rep.extra.update({"inferred_cases": n_inf, "annotated_cases": len(ann_cases), "doc_cases": len(doc_cases), "inferred_with_doc_cases": len(infdoc_cases)})
     rep.assumptions = [
         "coverage is one-directional: the stub type may contain more than the produced literal types",
         "return statements inside nested functions or after an unconditional raise are not required to be covered",
